@@ -161,8 +161,8 @@ func loopBound(tier string, sc LoopScenario) int {
 			b = 1
 		}
 	}
-	if tier == "thorough" && !strings.HasSuffix(sc.Name, "/mid") {
-		b++ // the mid-geometry scenarios have twice the yield points: one more preemption would take hours
+	if tier == "thorough" && !strings.HasSuffix(sc.Name, "/mid") && len(sc.Threads) < 3 {
+		b++ // the mid-geometry and the three-thread scenarios have too many schedules for one more preemption
 	}
 	return b
 }
